@@ -4,7 +4,12 @@
 //! spec/Trace_Sample.tla judges the log.  No expected values, no assertions about dasp's results.
 //!
 //! Events (all stateless; an execution is just a `reset` header followed by a group of events):
-//!   conv     a{src,dst,v}            r val [to_sample, from_sample, conv::<src>::to_<dst>]   (all three routes)
+//!   conv     a{src,dst,v}            r val [to_sample, from_sample, conv::<src>::to_<dst>, FromSample::from_sample_, ToSample::to_sample_]
+//!                                    o.nw = <dst type>::new(result.inner()) as some/none for I24/U24/I48/U48 targets, {"k":"na"} otherwise
+//!   via      a{src,to,v}             r val to_signed_sample | to_float_sample result, o.d = format of the Rust result type, o.nw
+//!   amp      a{src,op,v,g}           r val add_amp(v, g) | mul_amp(v, g)   (g in src's Signed resp. Float format, logged as o.g)
+//!   sconst   a{fmt}                  r val {eq: Sample::EQUILIBRIUM, id: Sample::IDENTITY, idf: its format, lim: [types::<fmt>::MIN, MAX] (custom types) | []}
+//!   eqconv   a{src,dst}              r val {se: src EQUILIBRIUM, de: dst EQUILIBRIUM, c: [src EQUILIBRIUM converted by the five routes]}, o.nw
 //!   conv2    a{src,mid,dst,v,route}  r val {mid, fin}                                       (two steps by one route)
 //!   ty_const a{ty}                   r val [MIN, MAX, EQUILIBRIUM]
 //!   ty_new   a{ty,v}                 r some inner | none
@@ -17,7 +22,7 @@
 //! Integers travel as {"n","l"} limbs, floats as IEEE fields (hx_common::big / f32f / f64f).
 use dasp_sample::conv;
 use dasp_sample::types::{I11, I20, I24, I48, U11, U20, U24, U48};
-use dasp_sample::Sample;
+use dasp_sample::{FromSample, Sample, ToSample};
 use hx_common::*;
 use serde_json::{json, Value};
 
@@ -50,24 +55,33 @@ fn dec(fmt: &str, j: &Value) -> Val {
     }
 }
 trait Fmt: Copy {
+    const NAME: &'static str;
     fn from_val(v: Val) -> Self;
     fn to_val(self) -> Val;
+    /// the type's own checked constructor applied to the value's inner integer (custom-width types only)
+    fn renew(self) -> Option<Option<Val>> {
+        None
+    }
 }
-macro_rules! fmt_prim { ($($T:ty),*) => {$(
+macro_rules! fmt_prim { ($($T:ident),*) => {$(
     impl Fmt for $T {
+        const NAME: &'static str = stringify!($T);
         fn from_val(v: Val) -> Self { match v { Val::I(x) => x as $T, _ => panic!("harness: integer expected") } }
         fn to_val(self) -> Val { Val::I(self as i128) }
     }
 )*} }
 fmt_prim!(i8, i16, i32, i64, u8, u16, u32, u64);
-macro_rules! fmt_custom { ($($T:ident : $R:ty),*) => {$(
+macro_rules! fmt_custom { ($($T:ident : $R:ty : $n:expr),*) => {$(
     impl Fmt for $T {
+        const NAME: &'static str = $n;
+        fn renew(self) -> Option<Option<Val>> { Some(<$T>::new(self.inner()).map(|y| Val::I(y.inner() as i128))) }
         fn from_val(v: Val) -> Self { match v { Val::I(x) => <$T>::new_unchecked(x as $R), _ => panic!("harness: integer expected") } }
         fn to_val(self) -> Val { Val::I(self.inner() as i128) }
     }
 )*} }
-fmt_custom!(I24: i32, U24: i32, I48: i64, U48: i64);
+fmt_custom!(I24: i32: "i24", U24: i32: "u24", I48: i64: "i48", U48: i64: "u48");
 impl Fmt for f32 {
+    const NAME: &'static str = "f32";
     fn from_val(v: Val) -> Self {
         match v {
             Val::F32(x) => x,
@@ -79,6 +93,7 @@ impl Fmt for f32 {
     }
 }
 impl Fmt for f64 {
+    const NAME: &'static str = "f64";
     fn from_val(v: Val) -> Self {
         match v {
             Val::F64(x) => x,
@@ -90,14 +105,16 @@ impl Fmt for f64 {
     }
 }
 
-/// One conversion through one of the three API routes; `None` = the code under test panicked.
+/// One conversion through one of the five API routes; `None` = the code under test panicked.
 macro_rules! pair {
     ($S:ty, $D:ty, $f:path, $v:expr, $route:expr) => {{
         let x: $S = <$S as Fmt>::from_val($v);
         let r: Option<$D> = catch(|| match $route {
             0 => Sample::to_sample::<$D>(x),
             1 => <$D as Sample>::from_sample(x),
-            _ => $f(x),
+            2 => $f(x),
+            3 => <$D as FromSample<$S>>::from_sample_(x),
+            _ => <$S as ToSample<$D>>::to_sample_(x),
         });
         r.map(|y| y.to_val())
     }};
@@ -290,6 +307,141 @@ fn conv_dyn(src: &str, dst: &str, v: Val, route: u8) -> Option<Val> {
     }
 }
 
+// ---------------------------------------------------------------------------- further entry points of `Sample`
+
+macro_rules! with_fmt {
+    ($name:expr, $T:ident => $body:expr) => {
+        match $name {
+            "i8" => { type $T = i8; $body }
+            "i16" => { type $T = i16; $body }
+            "i24" => { type $T = I24; $body }
+            "i32" => { type $T = i32; $body }
+            "i48" => { type $T = I48; $body }
+            "i64" => { type $T = i64; $body }
+            "u8" => { type $T = u8; $body }
+            "u16" => { type $T = u16; $body }
+            "u24" => { type $T = U24; $body }
+            "u32" => { type $T = u32; $body }
+            "u48" => { type $T = U48; $body }
+            "u64" => { type $T = u64; $body }
+            "f32" => { type $T = f32; $body }
+            "f64" => { type $T = f64; $body }
+            other => panic!("harness: unknown format {}", other),
+        }
+    };
+}
+
+/// the checked constructor of the format `fmt` applied to a value of that format (as the harness holds it)
+fn renew_dyn(fmt: &str, v: Val) -> Value {
+    let r = with_fmt!(fmt, T => catch(|| <T as Fmt>::from_val(v).renew()));
+    match r {
+        None => r_panic(),
+        Some(None) => json!({"k": "na"}),
+        Some(Some(x)) => r_opt(x.map(enc)),
+    }
+}
+fn nw_of(fmt: &str, r: Option<Val>) -> Value {
+    match r {
+        Some(v) => renew_dyn(fmt, v),
+        None => json!({"k": "na"}),
+    }
+}
+
+fn to_signed_g<S: Sample + Fmt>(v: Val) -> (Option<Val>, &'static str)
+where
+    S::Signed: Fmt,
+{
+    let x = S::from_val(v);
+    (catch(|| x.to_signed_sample()).map(|y| y.to_val()), <S::Signed as Fmt>::NAME)
+}
+fn to_float_g<S: Sample + Fmt>(v: Val) -> (Option<Val>, &'static str)
+where
+    S::Float: Fmt,
+{
+    let x = S::from_val(v);
+    (catch(|| x.to_float_sample()).map(|y| y.to_val()), <S::Float as Fmt>::NAME)
+}
+/// `to_signed_sample` / `to_float_sample`: result and the format of the Rust result type
+fn via_dyn(src: &str, to: &str, v: Val) -> (Option<Val>, &'static str) {
+    match to {
+        "signed" => with_fmt!(src, T => to_signed_g::<T>(v)),
+        "float" => with_fmt!(src, T => to_float_g::<T>(v)),
+        other => panic!("harness: unknown via {}", other),
+    }
+}
+fn add_amp_g<S: Sample + Fmt>(v: Val, g: Val) -> Option<Val>
+where
+    S::Signed: Fmt,
+{
+    let (x, a) = (S::from_val(v), <S::Signed as Fmt>::from_val(g));
+    catch(|| x.add_amp(a)).map(|y| y.to_val())
+}
+fn mul_amp_g<S: Sample + Fmt>(v: Val, g: Val) -> Option<Val>
+where
+    S::Float: Fmt,
+{
+    let (x, a) = (S::from_val(v), <S::Float as Fmt>::from_val(g));
+    catch(|| x.mul_amp(a)).map(|y| y.to_val())
+}
+fn signed_name<S: Sample>() -> &'static str
+where
+    S::Signed: Fmt,
+{
+    <S::Signed as Fmt>::NAME
+}
+fn float_name<S: Sample>() -> &'static str
+where
+    S::Float: Fmt,
+{
+    <S::Float as Fmt>::NAME
+}
+/// format of the gain argument of add_amp / mul_amp on `src`
+fn gain_fmt(src: &str, op: &str) -> &'static str {
+    match op {
+        "add" => with_fmt!(src, T => signed_name::<T>()),
+        "mul" => with_fmt!(src, T => float_name::<T>()),
+        other => panic!("harness: unknown amp op {}", other),
+    }
+}
+fn amp_dyn(src: &str, op: &str, v: Val, g: Val) -> Option<Val> {
+    match op {
+        "add" => with_fmt!(src, T => add_amp_g::<T>(v, g)),
+        _ => with_fmt!(src, T => mul_amp_g::<T>(v, g)),
+    }
+}
+fn ident_g<S: Sample>() -> (Val, &'static str)
+where
+    S::Float: Fmt,
+{
+    (<S as Sample>::IDENTITY.to_val(), <S::Float as Fmt>::NAME)
+}
+/// the associated constants of `Sample`: EQUILIBRIUM, IDENTITY (with the format of its type)
+fn sconst_dyn(fmt: &str) -> (Val, Val, &'static str) {
+    with_fmt!(fmt, T => {
+        let (id, idf) = ident_g::<T>();
+        (<T as Sample>::EQUILIBRIUM.to_val(), id, idf)
+    })
+}
+/// the published extremes of the custom-width formats (dasp_sample::types::<fmt>::{MIN, MAX})
+fn limits_dyn(fmt: &str) -> Vec<i128> {
+    use dasp_sample::types::{i24, i48, u24, u48};
+    match fmt {
+        "i24" => vec![i24::MIN.inner() as i128, i24::MAX.inner() as i128],
+        "u24" => vec![u24::MIN.inner() as i128, u24::MAX.inner() as i128],
+        "i48" => vec![i48::MIN.inner() as i128, i48::MAX.inner() as i128],
+        "u48" => vec![u48::MIN.inner() as i128, u48::MAX.inner() as i128],
+        _ => vec![],
+    }
+}
+const ROUTES: u8 = 5;
+fn routes_ret(rs: &[Option<Val>]) -> Value {
+    if rs.iter().all(|x| x.is_some()) {
+        r_val(Value::Array(rs.iter().map(|x| enc(x.unwrap())).collect()))
+    } else {
+        r_panic()
+    }
+}
+
 // ---------------------------------------------------------------------------- custom types
 
 trait Cust: Copy + Ord + PartialOrd {
@@ -442,18 +594,58 @@ fn run_exec(out: &mut Out, ex: &[Value]) {
             "conv" => {
                 let (src, dst) = (s(a, "src"), s(a, "dst"));
                 let v = dec(src, &a["v"]);
-                let (rs, h, _) = measured(|| [conv_dyn(src, dst, v, 0), conv_dyn(src, dst, v, 1), conv_dyn(src, dst, v, 2)]);
+                let mut rs: Vec<Option<Val>> = Vec::with_capacity(ROUTES as usize);
+                let ((), h, _) = measured(|| {
+                    for rt in 0..ROUTES {
+                        rs.push(conv_dyn(src, dst, v, rt));
+                    }
+                });
+                let p: Vec<u8> = rs.iter().map(|x| x.is_none() as u8).collect();
+                let nw = nw_of(dst, rs[0]);
+                out.ev(ev, a.clone(), routes_ret(&rs), json!({"ok": true, "debug": DEBUG, "p": p, "nw": nw}), h);
+            }
+            "via" => {
+                let (src, to) = (s(a, "src"), s(a, "to"));
+                let v = dec(src, &a["v"]);
+                let ((r, d), h, _) = measured(|| via_dyn(src, to, v));
+                let nw = nw_of(d, r);
+                out.ev(ev, a.clone(), rv(r.map(enc)), json!({"ok": true, "debug": DEBUG, "d": d, "nw": nw}), h);
+            }
+            "amp" => {
+                let (src, opn) = (s(a, "src"), s(a, "op"));
+                let gf = gain_fmt(src, opn);
+                let (v, g) = (dec(src, &a["v"]), dec(gf, &a["g"]));
+                let (r, h, _) = measured(|| amp_dyn(src, opn, v, g));
+                let nw = nw_of(src, r);
+                out.ev(ev, a.clone(), rv(r.map(enc)), json!({"ok": true, "debug": DEBUG, "g": gf, "nw": nw}), h);
+            }
+            "sconst" => {
+                let fmt = s(a, "fmt");
+                let ((eq, id, idf), h, _) = measured(|| sconst_dyn(fmt));
+                let lim: Vec<Value> = limits_dyn(fmt).into_iter().map(big).collect();
+                out.ev(ev, a.clone(), r_val(json!({"eq": enc(eq), "id": enc(id), "idf": idf, "lim": lim})), o.clone(), h);
+            }
+            "eqconv" => {
+                let (src, dst) = (s(a, "src"), s(a, "dst"));
+                let (se, _, _) = sconst_dyn(src);
+                let (de, _, _) = sconst_dyn(dst);
+                let mut rs: Vec<Option<Val>> = Vec::with_capacity(ROUTES as usize);
+                let ((), h, _) = measured(|| {
+                    for rt in 0..ROUTES {
+                        rs.push(conv_dyn(src, dst, se, rt));
+                    }
+                });
+                let nw = nw_of(dst, rs[0]);
                 let r = if rs.iter().all(|x| x.is_some()) {
-                    r_val(Value::Array(rs.iter().map(|x| enc(x.unwrap())).collect()))
+                    r_val(json!({"se": enc(se), "de": enc(de), "c": rs.iter().map(|x| enc(x.unwrap())).collect::<Vec<_>>()}))
                 } else {
                     r_panic()
                 };
-                let p: Vec<u8> = rs.iter().map(|x| x.is_none() as u8).collect();
-                out.ev(ev, a.clone(), r, json!({"ok": true, "debug": DEBUG, "p": p}), h);
+                out.ev(ev, a.clone(), r, json!({"ok": true, "debug": DEBUG, "nw": nw}), h);
             }
             "conv2" => {
                 let (src, mid, dst) = (s(a, "src"), s(a, "mid"), s(a, "dst"));
-                let route = a["route"].as_u64().unwrap_or(0) as u8;
+                let route = a["route"].as_u64().unwrap_or(0) as u8; // 0..4, see pair!
                 let v = dec(src, &a["v"]);
                 let (rs, h, _) = measured(|| {
                     let m = conv_dyn(src, mid, v, route);
@@ -669,6 +861,36 @@ fn conv2_ev(src: &str, mid: &str, dst: &str, v: Value, route: u64) -> Value {
     json!({"ev":"conv2","a":{"src":src,"mid":mid,"dst":dst,"v":v,"route":route}})
 }
 
+/// width of the `Signed` companion the stimuli assume for add_amp gains (a wrong guess only makes the
+/// specification report the stimulus as outside the domain, which the check treats as a tool error)
+fn signed_bits(s: &IF) -> u32 {
+    match (s.bits, s.signed) {
+        (24, false) => 32,
+        (48, false) => 64,
+        (b, _) => b,
+    }
+}
+fn via_ev(src: &str, to: &str, v: Value) -> Value {
+    json!({"ev":"via","a":{"src":src,"to":to,"v":v}})
+}
+fn amp_ev(src: &str, op: &str, v: Value, g: Value) -> Value {
+    json!({"ev":"amp","a":{"src":src,"op":op,"v":v,"g":g}})
+}
+/// associated constants of every listed format and EQUILIBRIUM of every ordered pair converted
+fn gen_consts(g: &mut Groups, tag: &str, fmts: &[&str], pair_ok: &dyn Fn(&str, &str) -> bool) {
+    g.start(&format!("{} const", tag));
+    for f in fmts {
+        g.push(json!({"ev":"sconst","a":{"fmt":f}}));
+    }
+    for s in fmts {
+        for d in fmts {
+            if s != d && pair_ok(s, d) {
+                g.push(json!({"ev":"eqconv","a":{"src":s,"dst":d}}));
+            }
+        }
+    }
+}
+
 fn gen_c01(rng: &mut Rng, thorough: bool, g: &mut Groups) {
     let (wide_n, stride16, per_triple) = if thorough { (8000, 1, 60) } else { (400, 61, 4) };
     for s in INTS.iter() {
@@ -682,6 +904,38 @@ fn gen_c01(rng: &mut Rng, thorough: bool, g: &mut Groups) {
             }
         }
     }
+    // the trait's associated constants, and equilibrium (as the library publishes it) through every pair
+    let names: Vec<&str> = INTS.iter().map(|f| f.name).collect();
+    gen_consts(g, "c01", &names, &|_, _| true);
+    // to_signed_sample: the conversion into the format's Signed companion
+    for s in INTS.iter() {
+        g.start(&format!("c01 {} to_signed_sample", s.name));
+        for v in int_values(rng, s, signed_bits(s), thorough, wide_n, stride16) {
+            g.push(via_ev(s.name, "signed", big(v)));
+        }
+    }
+    // add_amp: offset in the Signed companion, converted back; gains chosen so that the sum stays in range
+    let amp_n = if thorough { 4000 } else { 300 };
+    for s in INTS.iter() {
+        g.start(&format!("c01 {} add_amp", s.name));
+        let sb = signed_bits(s);
+        let (lo, hi) = (-half(sb), half(sb) - 1);
+        for i in 0..amp_n {
+            let a = amp_mix(rng, s.bits, s.bits);
+            let big_a = a << (sb - s.bits);
+            let gain = match i % 8 {
+                0 => 0,
+                1 => rng.range(-2, 2) as i128,
+                2 => lo - big_a + rng.range(0, 2) as i128,
+                3 => hi - big_a - rng.range(0, 2) as i128,
+                4 => (amp_uniform(rng, s.bits) - a) << (sb - s.bits),
+                5 => ((amp_uniform(rng, s.bits) - a) << (sb - s.bits)) + rng.range(-1, 1) as i128,
+                _ => lo - big_a + ((rng.next() as u128) % ((hi - lo + 1) as u128)) as i128,
+            };
+            let gain = gain.max(lo - big_a).min(hi - big_a).max(lo).min(hi);
+            g.push(amp_ev(s.name, "add", big(s.from_amp(a)), big(gain)));
+        }
+    }
     // two steps: every (src, mid, dst) with mid distinct from both ends (src = dst allowed: widen then narrow back)
     g.start("c01 two-step");
     for s in INTS.iter() {
@@ -692,7 +946,7 @@ fn gen_c01(rng: &mut Rng, thorough: bool, g: &mut Groups) {
                 }
                 for _ in 0..per_triple {
                     let a = amp_mix(rng, s.bits, d.bits.min(m.bits));
-                    g.push(conv2_ev(s.name, m.name, d.name, big(s.from_amp(a)), rng.below(3)));
+                    g.push(conv2_ev(s.name, m.name, d.name, big(s.from_amp(a)), rng.below(5)));
                 }
             }
         }
@@ -876,6 +1130,43 @@ fn gen_c02(rng: &mut Rng, thorough: bool, g: &mut Groups) {
     for _ in 0..ff_n {
         g.push(conv_ev("f64", "f32", f64f(f64_for_f32(rng))));
     }
+    // associated constants; equilibrium through every pair with a float end
+    let mut names: Vec<&str> = INTS.iter().map(|f| f.name).collect();
+    names.extend(floats.iter());
+    gen_consts(g, "c02", &names, &|s, d| s.starts_with('f') || d.starts_with('f'));
+    // to_float_sample of every format, to_signed_sample of the floats (their own companions)
+    for s in INTS.iter() {
+        g.start(&format!("c02 {} to_float_sample", s.name));
+        let fb = if s.bits > 32 { 53 } else { 24 };
+        for v in int_values(rng, s, fb, thorough, wide_n, stride16) {
+            g.push(via_ev(s.name, "float", big(v)));
+        }
+    }
+    g.start("c02 float companions");
+    for _ in 0..f2i_n {
+        let to = *rng.pick(&["signed", "float"]);
+        g.push(via_ev("f32", to, f32f(f32_any(rng))));
+        g.push(via_ev("f64", to, f64f(f64_for_f32(rng))));
+    }
+    // mul_amp of the integer formats: scale in the Float companion, converted back (product inside [-1, 1))
+    for s in INTS.iter() {
+        g.start(&format!("c02 {} mul_amp", s.name));
+        let wide = s.bits > 32;
+        for i in 0..(if thorough { 6000 } else { f2i_n }) {
+            let a = amp_mix(rng, s.bits, if wide { 53 } else { 24 });
+            let inner = a > -half(s.bits) + half(s.bits) / 1024 && a < half(s.bits) - half(s.bits) / 1024;
+            let unit: f64 = match i % 8 {
+                0 => 0.0,
+                1 if inner => 1.0,
+                2 if inner => -1.0,
+                3 => 0.5,
+                4 => -0.0,
+                _ => ((rng.next() >> 11) as f64 / (1u64 << 53) as f64 * 2.0 - 1.0) * 0.99,
+            };
+            let gj = if wide { f64f(unit) } else { f32f(unit as f32) };
+            g.push(amp_ev(s.name, "mul", big(s.from_amp(a)), gj));
+        }
+    }
     // two steps with a float in the middle or at an end
     g.start("c02 two-step");
     for s in INTS.iter() {
@@ -886,18 +1177,18 @@ fn gen_c02(rng: &mut Rng, thorough: bool, g: &mut Groups) {
                 let k = if d == s { 4 * two_n } else { two_n };
                 for _ in 0..k {
                     let a = amp_mix(rng, s.bits, fb.min(d.bits));
-                    g.push(conv2_ev(s.name, f, d.name, big(s.from_amp(a)), rng.below(3)));
+                    g.push(conv2_ev(s.name, f, d.name, big(s.from_amp(a)), rng.below(5)));
                 }
             }
             // float -> int -> float, int -> float -> other float, float -> other float -> int
             let of = if *f == "f32" { "f64" } else { "f32" };
             for _ in 0..two_n {
                 let x = if *f == "f32" { f32f(f32_unit(rng, s.bits)) } else { f64f(f64_unit(rng, s.bits)) };
-                g.push(conv2_ev(f, s.name, f, x.clone(), rng.below(3)));
-                g.push(conv2_ev(f, s.name, of, x.clone(), rng.below(3)));
-                g.push(conv2_ev(f, of, s.name, x, rng.below(3)));
+                g.push(conv2_ev(f, s.name, f, x.clone(), rng.below(5)));
+                g.push(conv2_ev(f, s.name, of, x.clone(), rng.below(5)));
+                g.push(conv2_ev(f, of, s.name, x, rng.below(5)));
                 let a = amp_mix(rng, s.bits, fb);
-                g.push(conv2_ev(s.name, f, of, big(s.from_amp(a)), rng.below(3)));
+                g.push(conv2_ev(s.name, f, of, big(s.from_amp(a)), rng.below(5)));
             }
         }
     }
